@@ -29,6 +29,8 @@ TYPES = {
     "phT": ("::core::marker::PhantomData<T>", "::core::marker::PhantomData", "::core::marker::PhantomData", "::core::marker::PhantomData", None),
     # invariant in the lifetime parameter (only with a lifetime parameter): a borrow of the enum is shorter than 'a and cannot be stretched
     "cellstr": ("::core::cell::Cell<&'a str>", '::core::cell::Cell::new("")', '::core::cell::Cell::new("brw")', '::core::cell::Cell::new("bq")', None),
+    # a USER type that is named like a prelude type (defined next to the enum, in a module of their own: `user_scope`)
+    "uopt": ("Option", "user_scope::Option(0)", "user_scope::Option(3)", "user_scope::Option(4)", None),
     "optboxT": ("Option<Box<T>>", "None", "None", "None", None),              # only with the parameter `tyq`
     "unit": ("()", "()", "()", "()", None),                                   # a zero-sized payload
     "arr2": ("[u8; 2]", "[0u8; 2]", "[1u8, 2u8]", "[3u8, 4u8]", None),
@@ -348,6 +350,22 @@ def wrap_in_macro(text, name, exprs=()):
     body = "\n".join("        " + l for l in text.splitlines())
     return ("macro_rules! declare_%s {\n    (%s) => {\n%s\n    };\n}\ndeclare_%s!(%s);"
             % (name.lower(), ", ".join(params), body, name.lower(), ", ".join(args)))
+
+
+OPTION_TYPES = ("opt", "optstr", "optT", "optboxT")
+
+
+def in_user_scope(decl, E, force=False, exports=()):
+    """the same declaration inside a module that defines its own types called `Option` and `Result` (type namespace only; the
+    prelude's Some / None / Ok / Err stay what they are): whatever the derive writes must not pick them up.  Only for enums whose own
+    fields do not mention the prelude's Option."""
+    if any(f["ty"] in OPTION_TYPES or f["ty"] in ("boxself", "mutref") for v in E["variants"] for f in v["fields"]) or E.get("via_macro") or E.get("macro_expr") \
+            or E.get("phf") or E.get("perr") or E.get("glob") or E.get("extra_items") or E.get("in_fn") or "twin_of" in E or E.get("no_user_scope"):
+        return decl
+    if not force and E["id"] % 5 != 2:
+        return decl
+    return ("pub mod user_scope {\n    use vsupport::*;\n    #[derive(Debug, Clone, PartialEq, Default)]\n    pub struct Option(pub u8);\n"
+            "    pub struct Result;\n%s\n}\npub use user_scope::{%s};" % ("\n".join("    " + l for l in decl.splitlines()), ", ".join([E["name"]] + [E["name"] + x for x in exports])))
 
 
 def inst(E):
